@@ -13,7 +13,8 @@ import CifModel.Lemmas.ParserDefect
   and the universal version is carried by the `defect` correspondence family with its independent oracle.
 -/
 namespace CifModel
-open CifModel.Model CifModel.Model.Lexer CifModel.Model.Parser CifModel.Spec.Recovery
+open CifModel.Model CifModel.Model.Lexer CifModel.Model.Parser CifModel.Spec.Recovery CifModel.Spec.Grammar
+open CifModel.Gen.ErrCodes (CIF_MISSING_VALUE CIF_UNEXPECTED_VALUE CIF_DUP_ITEMNAME CIF_EMPTY_LOOP)
 
 /-- **C12_clean** — a document in which the accept-all parse finds no defect triggers no callback under any policy and is
     read identically (= C01 for the callback side) -/
@@ -64,19 +65,78 @@ theorem C12_first_report_is_policy_free (o : Opts) (pol : Policy) (pre : Cif) (u
   the defect has been scanned; at document level it is checked by the `defect` oracle.) -/
 
 /-- **C12_missing_value** — a data name that is not followed by a value: CIF_MISSING_VALUE, the item gets the unknown value -/
-theorem C12_missing_value := @missing_value_run
+theorem C12_missing_value (o : Opts) {path : Path} {put : Container → Cif} {code : Str} (hv : View o path put code)
+    (pre post : List Item) (n : Str) (seen seen2 : List Str) (rest : List TokSpec) (s : PS) (fuel : Nat) (w : W)
+    (fs : List Container) (ls : List Loop) (isBlock : Bool) (hcif : w.cif = put (.mk code fs ls))
+    (hpre : wfItems o pre seen = true) (hseen : ∀ k ∈ normNames o ls, k ∈ seen)
+    (hname : wfName n = true) (hfresh : o.norm n ∉ normNames o (denoteItems o.dia o.normKey pre ls))
+    (hpost : wfItems o post seen2 = true)
+    (hseen2 : ∀ k ∈ normNames o (denoteItems o.dia o.normKey (pre ++ [.item n .unk]) ls), k ∈ seen2)
+    (hfuel : szItems pre + szItems post + 1 ≤ fuel)
+    (hpostne : post ≠ [] ∨ ∃ ty tx ts, rest = (ty, tx) :: ts ∧ isTerminator ty = true)
+    (hrest : lastIsLoop post = true → ∃ ty tx ts, rest = (ty, tx) :: ts ∧ isTerminator ty = true)
+    (hF : Feeds o s (itemsToks pre ++ ((.name, n) :: (itemsToks post ++ rest)))) :
+    ∃ s' r, elemsLoop o (fuel + post.length + 1 + pre.length) s (some path) isBlock acceptAll w
+        = elemsLoop o fuel s' (some path) isBlock acceptAll
+            { log := r :: w.log, cif := put (.mk code fs (denoteItems o.dia o.normKey (pre ++ [.item n .unk] ++ post) ls)) }
+      ∧ r.code = CIF_MISSING_VALUE ∧ Feeds o s' rest := by
+  apply missing_value_run <;> assumption
 
 /-- **C12_unexpected_value** — a value (of any kind, nested lists / tables included) where an item is expected, not directly
     behind a loop: CIF_UNEXPECTED_VALUE, the value is parsed and ignored -/
-theorem C12_unexpected_value := @unexpected_value_run
+theorem C12_unexpected_value (o : Opts) {path : Path} {put : Container → Cif} {code : Str} (hv : View o path put code)
+    (pre post : List Item) (v : Val) (seen seen2 : List Str) (rest : List TokSpec) (s : PS) (fuel : Nat) (w : W)
+    (fs : List Container) (ls : List Loop) (isBlock : Bool) (hcif : w.cif = put (.mk code fs ls))
+    (hpre : wfItems o pre seen = true) (hseen : ∀ k ∈ normNames o ls, k ∈ seen) (hnoloop : lastIsLoop pre = false)
+    (hwv : wfVal o v = true) (hpost : wfItems o post seen2 = true)
+    (hseen2 : ∀ k ∈ normNames o (denoteItems o.dia o.normKey pre ls), k ∈ seen2)
+    (hfuel : szItems pre + szItems post + szVal v + 1 ≤ fuel)
+    (hrest : lastIsLoop post = true → ∃ ty tx ts, rest = (ty, tx) :: ts ∧ isTerminator ty = true)
+    (hF : Feeds o s (itemsToks pre ++ (valToks v ++ (itemsToks post ++ rest)))) :
+    ∃ s' r, elemsLoop o (fuel + post.length + 1 + pre.length) s (some path) isBlock acceptAll w
+        = elemsLoop o fuel s' (some path) isBlock acceptAll
+            { log := r :: w.log, cif := put (.mk code fs (denoteItems o.dia o.normKey (pre ++ post) ls)) }
+      ∧ r.code = CIF_UNEXPECTED_VALUE ∧ Feeds o s' rest := by
+  apply unexpected_value_run <;> assumption
 
 /-- **C12_dup_itemname** — a data name whose normalised form is already defined in the container (as a scalar or in a loop,
     in any spelling): CIF_DUP_ITEMNAME, the name and its value are parsed and dropped -/
-theorem C12_dup_itemname := @dup_name_run
+theorem C12_dup_itemname (o : Opts) {path : Path} {put : Container → Cif} {code : Str} (hv : View o path put code)
+    (pre post : List Item) (n : Str) (v : Val) (seen seen2 : List Str) (rest : List TokSpec) (s : PS) (fuel : Nat) (w : W)
+    (fs : List Container) (ls : List Loop) (isBlock : Bool) (hcif : w.cif = put (.mk code fs ls))
+    (hpre : wfItems o pre seen = true) (hseen : ∀ k ∈ normNames o ls, k ∈ seen)
+    (hname : wfName n = true) (hdup : o.norm n ∈ normNames o (denoteItems o.dia o.normKey pre ls))
+    (hwv : wfVal o v = true) (hpost : wfItems o post seen2 = true)
+    (hseen2 : ∀ k ∈ normNames o (denoteItems o.dia o.normKey pre ls), k ∈ seen2)
+    (hfuel : szItems pre + szItems post + szVal v + 1 ≤ fuel)
+    (hrest : lastIsLoop post = true → ∃ ty tx ts, rest = (ty, tx) :: ts ∧ isTerminator ty = true)
+    (hF : Feeds o s (itemsToks pre ++ (((.name, n) :: valToks v) ++ (itemsToks post ++ rest)))) :
+    ∃ s' r, elemsLoop o (fuel + post.length + 1 + pre.length) s (some path) isBlock acceptAll w
+        = elemsLoop o fuel s' (some path) isBlock acceptAll
+            { log := r :: w.log, cif := put (.mk code fs (denoteItems o.dia o.normKey (pre ++ post) ls)) }
+      ∧ r.code = CIF_DUP_ITEMNAME ∧ Feeds o s' rest := by
+  apply dup_name_run <;> assumption
 
 /-- **C12_empty_loop** — a loop header (≥ 1 valid, new, pairwise distinct names) followed by no value: CIF_EMPTY_LOOP, the loop
     is accepted without packets (parse_container prunes it when the container ends) -/
-theorem C12_empty_loop := @empty_loop_run
+theorem C12_empty_loop (o : Opts) {path : Path} {put : Container → Cif} {code : Str} (hv : View o path put code)
+    (pre post : List Item) (ns : List Str) (seen seen2 : List Str) (rest : List TokSpec) (s : PS) (fuel : Nat) (w : W)
+    (fs : List Container) (ls : List Loop) (isBlock : Bool) (hcif : w.cif = put (.mk code fs ls))
+    (hpre : wfItems o pre seen = true) (hseen : ∀ k ∈ normNames o ls, k ∈ seen)
+    (hns : ns ≠ []) (hwf : ∀ n ∈ ns, wfName n = true)
+    (hfresh : ∀ n ∈ ns, o.norm n ∉ normNames o (denoteItems o.dia o.normKey pre ls)) (hnd : (ns.map o.norm).Nodup)
+    (hpost : wfItems o post seen2 = true)
+    (hseen2 : ∀ k ∈ normNames o (denoteItems o.dia o.normKey pre ls ++ [mkLoop ns []]), k ∈ seen2)
+    (hfuel : szItems pre + szItems post + (ns.length + 2) + 1 ≤ fuel)
+    (hnext : ∃ ty tx ts, itemsToks post ++ rest = (ty, tx) :: ts ∧ isTerminator ty = true ∧ ty ≠ .name)
+    (hrest : lastIsLoop post = true → ∃ ty tx ts, rest = (ty, tx) :: ts ∧ isTerminator ty = true)
+    (hF : Feeds o s (itemsToks pre ++ (((.loopKw, []) :: ns.map (fun n => (TokType.name, n))) ++ (itemsToks post ++ rest)))) :
+    ∃ s' r, elemsLoop o (fuel + post.length + 1 + pre.length) s (some path) isBlock acceptAll w
+        = elemsLoop o fuel s' (some path) isBlock acceptAll
+            { log := r :: w.log,
+              cif := put (.mk code fs (denoteItems o.dia o.normKey post (denoteItems o.dia o.normKey pre ls ++ [mkLoop ns []]))) }
+      ∧ r.code = CIF_EMPTY_LOOP ∧ Feeds o s' rest := by
+  apply empty_loop_run <;> assumption
 
 /-- the universal per-class statement (not proved): for every host, position and layout, the planted document's accept-all
     parse has the class's code first, at a line between the defect and the following token, and the documented content -/
